@@ -509,6 +509,14 @@ parse_next_record_header:
         *in = pb.buf.start;
         return rc;
     }
+    else if (innerType != SSL_RECORD_TYPE_HANDSHAKE)
+    {
+        /* RFC 8446, 5.1: an unexpected record type MUST terminate the
+           connection with an unexpected_message alert. */
+        psTraceIntInfo("Unexpected inner content type: %d\n", innerType);
+        ssl->err = SSL_ALERT_UNEXPECTED_MESSAGE;
+        goto encodeResponse;
+    }
 
     /* Advance pointer to point to after the data we have read. */
     *in = pb.buf.start;
